@@ -29,7 +29,7 @@ def run(tier, seed):
     proof = common.build_property(PID, extra=['Cnl/PreferenceCases.vo'])
     findings = [f for f in common.load_findings(PID) if f.get('status') == 'known']
     n = 1200 if tier == 'thorough' else 220
-    specs, seen, tries = [], set(), 0
+    specs, seen, tries = gen_pref.directed(), set(), 0
     while len(specs) < n and tries < 20 * n:
         tries += 1
         s = gen_pref.gen(rnd, big=(tier == 'thorough'))
